@@ -11,6 +11,14 @@ from .._sentinels import undefined
 from .generic_value import GenericValue
 
 
+def _has_new_value(value):
+    # the value was never compared, or the comparison raised an exception
+    # (UsageError for values which can not be copied) before it was recorded
+    return (
+        not isinstance(value, UndecidedValue) and value._new_value is not undefined
+    )
+
+
 class DictValue(GenericValue):
     _current_op = "snapshot[key]"
 
@@ -53,7 +61,7 @@ class DictValue(GenericValue):
                 [
                     f"{self._file._value_to_code(k)}: {v._new_code()}"
                     for k, v in self._new_value.items()
-                    if not isinstance(v, UndecidedValue)
+                    if _has_new_value(v)
                 ]
             )
             + "}"
@@ -79,9 +87,7 @@ class DictValue(GenericValue):
 
         to_insert = []
         for key, new_value_element in self._new_value.items():
-            if key not in self._old_value and not isinstance(
-                new_value_element, UndecidedValue
-            ):
+            if key not in self._old_value and _has_new_value(new_value_element):
                 # add new values
                 to_insert.append((key, new_value_element._new_code()))
 
